@@ -34,13 +34,15 @@ def main():
     mypid = os.getpid()
 
     def hook(event, args):
-        if event not in ('open', 'os.mkdir'):
+        if event not in ('open', 'os.mkdir', 'os.rename', 'os.remove', 'os.rmdir', 'os.truncate', 'os.link', 'os.symlink'):
             return
         path = str(args[0])
+        if event == 'os.rename' and not path.startswith(study):
+            path = str(args[1])
         if not path.startswith(study):
             return
         rel = path[len(study):]
-        mode_ = args[1] if event == 'open' else 'mkdir'
+        mode_ = args[1] if event == 'open' else event
         case = 'parent'
         if '_run_' in rel:
             case = rel.split('_run_')[1].split('/')[0]
